@@ -473,7 +473,7 @@ var spEdits = []string{"dupOperationID", "dropPathParam", "renamePathParam", "ex
 	"arrayNoItemsSchema", "nestedItemsNoItems", "requiredUndefined", "requiredViaAdditional", "dupInheritedProperty",
 	"circularAncestry", "overlapPaths", "badPatternParam", "badPatternHeader", "badPatternSchema", "badPatternItems",
 	"unresolvedSchemaRef", "unresolvedParamRef", "noPaths", "emptyPaths", "bodyViaSharedParam", "noResponses", "refWithSiblingDefault",
-	"refWithExtension", "pathParamNoPlaceholder", "requiredViaAdditionalSchema"}
+	"refWithExtension", "pathParamNoPlaceholder", "requiredViaAdditionalSchema", "sameBodyNameTwice", "tupleDefaults"}
 
 func (g *spgen) applyEdit(doc M, kind string) bool {
 	ops := docOps(doc)
@@ -838,6 +838,29 @@ func (g *spgen) applyEdit(doc M, kind string) bool {
 			doc["definitions"] = defs
 		}
 		defs["Bag"] = M{"type": "object", "required": L{"id"}, "additionalProperties": M{"type": g.pick([]string{"string", "integer"})}}
+		return true
+	case "sameBodyNameTwice":
+		// breaks no rule: several operations with a body parameter of the same name (and responses without schema),
+		// one of them with a default its schema rejects: the visited-path bookkeeping must start afresh for each parameter (C09)
+		for i := 0; i < 4; i++ {
+			bad := i == g.rng.Intn(4) || i == 3
+			sch := M{"type": "object", "properties": M{"k": M{"type": "integer", "default": 1}}}
+			if bad {
+				sch = M{"type": "object", "properties": M{"k": M{"type": "integer", "default": "bad"}}}
+			}
+			paths[fmt.Sprintf("/same%d", i)] = M{"post": M{"operationId": fmt.Sprintf("same%d", i),
+				"parameters": L{M{"name": "body", "in": "body", "schema": sch}}, "responses": M{"204": M{"description": "d"}}}}
+		}
+		return true
+	case "tupleDefaults":
+		// breaks no rule: defaults in the members of a tuple `items`, the later ones bad (C09: every member has its own path)
+		defs, _ := doc["definitions"].(M)
+		if defs == nil {
+			defs = M{}
+			doc["definitions"] = defs
+		}
+		defs["Tup"] = M{"type": "array", "items": L{M{"type": "integer", "default": 1}, M{"type": "string", "default": 7},
+			M{"type": "object", "properties": M{"q": M{"type": "boolean", "default": "bad"}}}}}
 		return true
 	case "noPaths":
 		delete(doc, "paths")
